@@ -187,7 +187,11 @@ class Fn:
             elif k == 'struct':
                 adt = pat['res'].get('path', '?')
                 for f in pat['fields']:
-                    reg_pat(f['pat'], ('proj', src, ('field', adt, f['name'])))
+                    if f['name'].isdigit():
+                        # `Some { 0: x }` — positional field of a tuple variant (used by desugarings)
+                        reg_pat(f['pat'], ('proj', src, ('ctor', adt, int(f['name']), len(pat['fields']))))
+                    else:
+                        reg_pat(f['pat'], ('proj', src, ('field', adt, f['name'])))
             elif k == 'tstruct':
                 ctor = pat['res'].get('path', '?')
                 n = len(pat['pats'])
